@@ -8,3 +8,62 @@ mod simple_avx;
 
 #[cfg(target_arch = "aarch64")]
 mod simple_neon;
+
+/// Verification hook: drives each distance kernel individually, whatever the
+/// runtime dispatch of `simple` would select on this host.
+#[cfg(arroy_verif)]
+pub mod verif_kernels {
+    use crate::unaligned_vector::UnalignedVector;
+
+    /// The kernels that can be driven on this host, by name.
+    pub fn available() -> Vec<&'static str> {
+        let mut v = vec!["dispatch", "scalar"];
+        #[cfg(any(target_arch = "x86", target_arch = "x86_64"))]
+        if is_x86_feature_detected!("sse") {
+            v.push("sse");
+        }
+        #[cfg(target_arch = "x86_64")]
+        if is_x86_feature_detected!("avx") && is_x86_feature_detected!("fma") {
+            v.push("avx");
+        }
+        v
+    }
+
+    /// Squared euclidean distance of two vectors given as raw native-endian f32 bytes.
+    pub fn euclidean(kernel: &str, u: &[u8], v: &[u8]) -> Option<f32> {
+        let u = UnalignedVector::<f32>::from_bytes(u).ok()?;
+        let v = UnalignedVector::<f32>::from_bytes(v).ok()?;
+        match kernel {
+            "dispatch" => Some(super::simple::euclidean_distance(&u, &v)),
+            "scalar" => Some(super::simple::euclidean_distance_non_optimized(&u, &v)),
+            #[cfg(any(target_arch = "x86", target_arch = "x86_64"))]
+            "sse" if is_x86_feature_detected!("sse") => {
+                Some(unsafe { super::simple_sse::euclid_similarity_sse(&u, &v) })
+            }
+            #[cfg(target_arch = "x86_64")]
+            "avx" if is_x86_feature_detected!("avx") && is_x86_feature_detected!("fma") => {
+                Some(unsafe { super::simple_avx::euclid_similarity_avx(&u, &v) })
+            }
+            _ => None,
+        }
+    }
+
+    /// Dot product of two vectors given as raw native-endian f32 bytes.
+    pub fn dot(kernel: &str, u: &[u8], v: &[u8]) -> Option<f32> {
+        let u = UnalignedVector::<f32>::from_bytes(u).ok()?;
+        let v = UnalignedVector::<f32>::from_bytes(v).ok()?;
+        match kernel {
+            "dispatch" => Some(super::simple::dot_product(&u, &v)),
+            "scalar" => Some(super::simple::dot_product_non_optimized(&u, &v)),
+            #[cfg(any(target_arch = "x86", target_arch = "x86_64"))]
+            "sse" if is_x86_feature_detected!("sse") => {
+                Some(unsafe { super::simple_sse::dot_similarity_sse(&u, &v) })
+            }
+            #[cfg(target_arch = "x86_64")]
+            "avx" if is_x86_feature_detected!("avx") && is_x86_feature_detected!("fma") => {
+                Some(unsafe { super::simple_avx::dot_similarity_avx(&u, &v) })
+            }
+            _ => None,
+        }
+    }
+}
